@@ -54,6 +54,39 @@ func decKind(err error) string {
 	return "err:other:" + strings.ReplaceAll(msg, " ", "_")
 }
 
+func verifyKind(err error) string {
+	msg := err.Error()
+	switch {
+	case errors.Is(err, cert.ErrBlockListed):
+		return "err:blocklisted"
+	case errors.Is(err, cert.ErrCaNotFound):
+		return "err:ca-not-found"
+	case errors.Is(err, cert.ErrCurveMismatch):
+		return "err:curve"
+	case errors.Is(err, cert.ErrRootExpired):
+		return "err:root-expired"
+	case errors.Is(err, cert.ErrExpired):
+		return "err:expired"
+	case errors.Is(err, cert.ErrSignatureMismatch):
+		return "err:signature"
+	case msg == "no issuer in certificate":
+		return "err:no-issuer"
+	case strings.HasPrefix(msg, "certificate expires after signing certificate"):
+		return "err:after-ca"
+	case strings.HasPrefix(msg, "certificate is valid before the signing certificate"):
+		return "err:before-ca"
+	case strings.HasPrefix(msg, "certificate contained a group not present"):
+		return "err:group"
+	case strings.HasPrefix(msg, "certificate contained a network assignment outside"):
+		return "err:network"
+	case strings.HasPrefix(msg, "certificate contained an unsafe network assignment outside"):
+		return "err:unsafe-network"
+	case strings.HasPrefix(msg, "could not calculate alternate fingerprint"):
+		return "err:alt-fingerprint"
+	}
+	return "err:other:" + strings.ReplaceAll(msg, " ", "_")
+}
+
 func bytesArg(s string) []byte {
 	if s == "nil" {
 		return nil
@@ -197,6 +230,56 @@ func newExec(t *testing.T) func([]string) string {
 			c2, _, e2 := cert.UnmarshalCertificateFromPEM(pemBytes)
 			c3, e3 := cert.Recombine(cert.Version(f.Version), hs, c.PublicKey(), c.Curve())
 			return fmt.Sprintf("ok %s %s %s %s %s", hlib.Hex(std), hlib.Hex(hs), rt(c, c1, e1), rt(c, c2, e2), rt(c, c3, e3))
+		case "tamper":
+			if len(a) != 9 {
+				return "bad-op"
+			}
+			ver, caver := hlib.Atoi(a[1]), hlib.Atoi(a[5])
+			c0, err := decodeStd(ver, bytesArg(a[3]))
+			if err != nil {
+				return "op-inconsistent"
+			}
+			ca, err := decodeStd(caver, bytesArg(a[6]))
+			if err != nil {
+				return "op-inconsistent"
+			}
+			pool := cert.NewCAPool()
+			if err := pool.AddCA(ca); err != nil && !errors.Is(err, cert.ErrExpired) {
+				return "op-inconsistent"
+			}
+			if fp, _ := ca.Fingerprint(); fp != c0.Issuer() {
+				return "op-inconsistent"
+			}
+			var c1 cert.Certificate
+			if a[2] == "hs" {
+				c1, err = cert.Recombine(cert.Version(ver), bytesArg(a[4]), c0.PublicKey(), c0.Curve())
+			} else {
+				c1, err = decodeStd(ver, bytesArg(a[4]))
+			}
+			if err != nil {
+				return "undecodable " + decKind(err)
+			}
+			if hlib.B(c1.CheckSignature(ca.PublicKey())) != a[8] {
+				return "op-inconsistent"
+			}
+			f0, f1 := cl.FieldsOf(c0), cl.FieldsOf(c1)
+			sigrel := "othersig"
+			if string(f0.Signature) == string(f1.Signature) {
+				sigrel = "sigsame"
+			} else if tw, err := p256.Swap(f0.Signature); err == nil && string(tw) == string(f1.Signature) {
+				sigrel = "twin"
+			}
+			f0.Signature, f1.Signature = nil, nil
+			same := "changed"
+			if f0.Desc() == f1.Desc() {
+				same = "same"
+			}
+			_, verr := pool.VerifyCertificate(cl.TimeOf(a[7]), c1)
+			v := "ok"
+			if verr != nil {
+				v = verifyKind(verr)
+			}
+			return fmt.Sprintf("%s %s %s", v, same, sigrel)
 		case "norm":
 			sig := bytesArg(a[1])
 			n := "err"
@@ -358,7 +441,106 @@ func weird(r *hlib.Rand, ver int, raw []byte) []byte {
 	return append([]byte{}, raw...)
 }
 
+// genTamper: valid certificates under real CAs, and alterations of their encodings.
+func genTamper(r *hlib.Rand, n int, emit func(string, ...any)) {
+	const T0 = int64(cl.Epoch)
+	for i := 0; i < n; {
+		curve := cert.Curve(hlib.Pick(r, 0, 1, 1))
+		key := cl.NewSignKey(r, curve)
+		caver := hlib.Pick(r, 1, 2)
+		caf := cl.Fields{Version: caver, Curve: int(curve), IsCA: true, NotBefore: cl.Sec(T0 - 1000), NotAfter: cl.Sec(T0 + 100000), Name: "ca", PublicKey: key.Pub}
+		if r.Bool() {
+			caf.Groups = []string{"a", "b", "c"}
+		}
+		if r.Bool() {
+			caf.Networks = []netip.Prefix{netip.MustParsePrefix("10.0.0.0/8")}
+		}
+		caraw := cl.Craft(caf, key, nil)
+		ca, err := cl.Decode(caver, caraw)
+		if err != nil {
+			continue
+		}
+		cafp, _ := ca.Fingerprint()
+		for j := 0; j < 6 && i < n; j++ {
+			ver := hlib.Pick(r, 1, 2, 2)
+			f := cl.Fields{Version: ver, Curve: int(curve), NotBefore: cl.Sec(T0 - 500), NotAfter: cl.Sec(T0 + 50000), Issuer: cafp,
+				Name: hlib.Pick(r, "host", "h", "a-longer-host-name.example"), Groups: cl.Subset(r, []string{"a", "b"}),
+				Networks: []netip.Prefix{cl.Inside(r, netip.MustParsePrefix("10.0.0.0/8"), 16)}, PublicKey: cl.LeafPub(r, curve)}
+			if r.Bool() {
+				f.Unsafe = []netip.Prefix{netip.MustParsePrefix("10.200.0.0/16")}
+			}
+			raw := cl.Craft(f, key, nil)
+			c0, err := cl.Decode(ver, raw)
+			if err != nil {
+				continue
+			}
+			hs, _ := c0.MarshalForHandshakes()
+			now := cl.NsOf(T0+int64(r.Intn(1000)), 0)
+			for k := 0; k < 8 && i < n; k++ {
+				i++
+				form, base := "std", raw
+				if r.Chance(1, 3) {
+					form, base = "hs", hs
+				}
+				var alt []byte
+				switch r.Intn(12) {
+				case 0:
+					alt = base // unaltered
+				case 1: // the other signature form (P-256) / a bit flip inside the signature (25519)
+					if tw, err := p256.Swap(c0.Signature()); err == nil && curve == cert.Curve_P256 {
+						alt = cl.Craft(cl.FieldsOf(c0), nil, tw)
+						form = "std"
+					} else {
+						alt = mutate(r, base)
+					}
+				case 2: // same content signed again by somebody without the CA key
+					alt = cl.Craft(cl.FieldsOf(c0), cl.NewSignKey(r, curve), nil)
+					form = "std"
+				case 3: // changed content, signed by somebody else
+					g := cl.FieldsOf(c0)
+					g.Name = "evil"
+					alt = cl.Craft(g, cl.NewSignKey(r, curve), nil)
+					form = "std"
+				case 4: // changed content with the old signature
+					g := cl.FieldsOf(c0)
+					switch r.Intn(4) {
+					case 0:
+						g.Groups = append(g.Groups, "c")
+					case 1:
+						g.NotAfter = g.NotAfter.Add(time.Hour)
+					case 2:
+						g.Networks = []netip.Prefix{netip.MustParsePrefix("10.0.0.1/8")}
+					default:
+						g.PublicKey = cl.LeafPub(r, curve)
+					}
+					alt = cl.Craft(g, nil, c0.Signature())
+					form = "std"
+				case 5:
+					alt = weird(r, ver, base)
+				default:
+					alt = mutate(r, base)
+				}
+				var c1 cert.Certificate
+				if form == "hs" {
+					c1, err = cert.Recombine(cert.Version(ver), alt, c0.PublicKey(), c0.Curve())
+				} else {
+					c1, err = decodeStd(ver, alt)
+				}
+				sig := "0"
+				if err == nil {
+					sig = hlib.B(c1.CheckSignature(ca.PublicKey()))
+				}
+				emit("tamper %d %s %s %s %d %s %s %s", ver, form, hlib.Hex(raw), hlib.Hex(alt), caver, hlib.Hex(caraw), now, sig)
+			}
+		}
+	}
+}
+
 func gen(r *hlib.Rand, n int, tier, profile string, emit func(string, ...any)) {
+	if profile == "C02" {
+		genTamper(r, n, emit)
+		return
+	}
 	keys := []*cl.SignKey{cl.NewSignKey(r, cert.Curve_P256), cl.NewSignKey(r, cert.Curve_P256)}
 	for i := 0; i < n; i++ {
 		f, signer, tail := codecFields(r)
